@@ -6,6 +6,8 @@ Proofs/NFAElimDefs.lean — what the quotient constructions need to know about t
 import AutomataVerif.Model.NFAElim
 import AutomataVerif.Proofs.NFATable
 
+open AV.AL
+
 namespace AV.NFAElim
 open AV
 
